@@ -115,6 +115,11 @@ def run_selftest(prop, seed=0, out=sys.stdout, verbose=False):
             print('ANALYSIS-ERROR property=%s self-test whole-package variant "%s": %s' % (prop, kind, e), file=out)
         finally:
             shutil.rmtree(tmp, ignore_errors=True)
+    # independently produced changes kept under /verif/seeded (must be caught by the check of
+    # their own property) and /verif/benign (behaviour-preserving: every check must stay silent)
+    pc = run_patch_corpus(prop, seed, out)
+    bad += pc['bad']
+    counts_patch = pc
     # record what the thorough tier covered in the evidence file
     try:
         import json
@@ -123,6 +128,7 @@ def run_selftest(prop, seed=0, out=sys.stdout, verbose=False):
         if os.path.exists(ep):
             ev = json.load(open(ep))
             ev['coverage']['selftest'] = {'corpus_entries': len(entries), 'results': counts, 'whole_package_variants': ['rename+roundtrip', 'private helper renames'],
+                                          'independent_changes': {k: v for k, v in counts_patch.items() if k != 'bad'},
                                           'defects_of_the_checker': bad,
                                           'rule': 'seeded variants must be caught, benign variants and whole-package behaviour-preserving transformations must stay silent; run on scratch copies, nothing is executed'}
             ev['coverage']['evaluations'] = ev['coverage'].get('evaluations', 0) + len(entries) + 2
@@ -130,6 +136,83 @@ def run_selftest(prop, seed=0, out=sys.stdout, verbose=False):
     except Exception as e:                                  # pragma: no cover
         print('   (could not record the self-test in the evidence file: %s)' % e, file=out)
     return 2 if bad else 0
+
+
+def _patch_job(job):
+    import subprocess
+    from .__main__ import run_property
+    kind, name, prop, seed = job
+    d = os.path.join(os.path.dirname(os.path.dirname(os.path.abspath(__file__))), kind, name)
+    tmp = tempfile.mkdtemp(prefix='bistat.')
+    try:
+        shutil.copytree(os.path.join(REPO, 'bisturi'), os.path.join(tmp, 'bisturi'), ignore=shutil.ignore_patterns('__pycache__', '__pkts__'))
+        p = subprocess.run(['git', 'apply', '--whitespace=nowarn', '--include=bisturi/*', os.path.join(d, 'patch.diff')], cwd=tmp,
+                           stdout=subprocess.PIPE, stderr=subprocess.STDOUT)
+        if p.returncode:
+            return kind, name, 'skipped', ''
+        buf = io.StringIO()
+        try:
+            code = run_property(prop, 'quick', seed, root=tmp, write=False, out=buf)
+        except Exception as e:
+            code = 2
+            buf.write('internal %r' % e)
+        return kind, name, code, buf.getvalue()
+    finally:
+        shutil.rmtree(tmp, ignore_errors=True)
+
+
+def run_patch_corpus(prop, seed=0, out=sys.stdout):
+    """seeded/<name> of this property must make the check exit 1; every benign/<name> must leave
+    it at 0 (an analysis that cannot follow the refactoring -- exit 2 -- is listed, not counted as
+    a defect of the checker: it is a missing verdict, never a wrong one)"""
+    import json
+    import multiprocessing
+    verif = os.path.dirname(os.path.dirname(os.path.abspath(__file__)))
+    jobs = []
+    for kind in ('seeded', 'benign'):
+        base = os.path.join(verif, kind)
+        if not os.path.isdir(base):
+            continue
+        for name in sorted(os.listdir(base)):
+            mp = os.path.join(base, name, 'meta.json')
+            if not os.path.exists(mp) or not os.path.exists(os.path.join(base, name, 'patch.diff')):
+                continue
+            meta = json.load(open(mp))
+            if kind == 'seeded' and meta.get('property') != prop:
+                continue
+            if kind == 'seeded' and meta.get('caught_by_own_property') is False:
+                # recorded gap (DESIGN.md section 10): reported by the checks of other properties only
+                print('   independent seeded change %s: recorded gap of this check (caught by %s)' % (name, ', '.join(meta.get('checks_fired', [])) or 'no check'), file=out)
+                continue
+            jobs.append((kind, name, prop, seed))
+    res = {'seeded_caught': 0, 'seeded_missed': 0, 'benign_silent': 0, 'benign_undecided': 0, 'benign_flagged': 0, 'skipped': 0, 'bad': 0}
+    if not jobs:
+        return res
+    with multiprocessing.Pool(min(16, len(jobs))) as pool:
+        results = pool.map(_patch_job, jobs, chunksize=1)
+    for kind, name, code, text in results:
+        if code == 'skipped':
+            res['skipped'] += 1
+            print('   independent change %s/%s skipped: the patch no longer applies' % (kind, name), file=out)
+        elif kind == 'seeded':
+            if code == 1:
+                res['seeded_caught'] += 1
+            else:
+                res['seeded_missed'] += 1
+                res['bad'] += 1
+                print('ANALYSIS-ERROR property=%s independent seeded change %s is not caught (exit %s)' % (prop, name, code), file=out)
+        else:
+            if code == 0:
+                res['benign_silent'] += 1
+            elif code == 2:
+                res['benign_undecided'] += 1
+                print('   independent refactoring %s: no verdict (the analysis cannot follow it)' % name, file=out)
+            else:
+                res['benign_flagged'] += 1
+                res['bad'] += 1
+                print('ANALYSIS-ERROR property=%s independent behaviour-preserving refactoring %s is flagged (false alarm)' % (prop, name), file=out)
+    print('   independent changes for %s: %s' % (prop, ', '.join('%s=%d' % kv for kv in sorted(res.items()) if kv[0] != 'bad')), file=out)
+    return res
 
 
 def main(argv):
